@@ -294,6 +294,59 @@ def gen_sel(rng, max_nodes=12, max_choices=4, max_opts=4, n_incompat=None, cons_
     return case
 
 
+def gen_layered(rng):
+    """layered design spaces: a root deriving 2-3 subsystems, each with a top-level choice; options carry nested choices;
+    incompatibilities between options of different top-level choices (hierarchical, merged, non-Cartesian scenarios)"""
+    nid = [0]
+
+    def new():
+        nid[0] += 1
+        return nid[0] - 1
+    root = new()
+    edges, sel, top = [], [], []
+    sel_nodes = []
+    n_sys = rng.choice([2, 2, 3])
+    for _ in range(n_sys):
+        sysn = new()
+        edges.append([root, sysn])
+        opts = [new() for _ in range(rng.choice([2, 2, 3]))]
+        sel_nodes.append((sysn, opts))
+        top.append(opts)
+    nested = []
+    for sysn, opts in list(sel_nodes):
+        for o in opts:
+            if rng.random() < 0.45 and nid[0] < 16:
+                k = rng.choice([2, 2, 3])
+                if rng.random() < 0.25:
+                    mid = new()
+                    edges.append([o, mid])
+                    origin = mid
+                else:
+                    origin = o
+                nopts = [new() for _ in range(k)]
+                nested.append((origin, nopts))
+    cid = nid[0]
+    for origin, opts in sel_nodes + nested:
+        sel.append({'id': cid, 'origin': origin, 'options': opts})
+        cid += 1
+    incompat = []
+    for _ in range(rng.choice([0, 1, 1, 2])):
+        i, j = rng.sample(range(n_sys), 2)
+        a, b = rng.choice(top[i]), rng.choice(top[j])
+        if [a, b] not in incompat and [b, a] not in incompat:
+            incompat.append([a, b])
+    if nested and rng.random() < 0.25:
+        # an incompatibility reaching into a nested choice
+        o1 = rng.choice(rng.choice(nested)[1])
+        o2 = rng.choice(rng.choice(top))
+        if o1 != o2:
+            incompat.append([o1, o2])
+    case = {'n': nid[0], 'edges': edges, 'sel': sel, 'start': [root], 'incompat': incompat, 'cons': []}
+    if rng.random() < 0.5:
+        case['order'] = rng.randrange(1 << 30)
+    return case
+
+
 def gen_diamond(rng):
     """G-diamond: fan-out / fan-in derivations below option nodes, some of whose members have a second deriver"""
     nid = [0]
